@@ -290,8 +290,7 @@ skipSpace:
 		// Note that the buffer may have been refilled since we read r,
 		// such as when peeking at the byte which follows a backslash,
 		// in which case r's bytes are gone and we cannot match on them.
-		w := uint(utf8.RuneLen(r))
-		if p.bsp >= w && bytes.HasPrefix(p.bs[p.bsp-w:], p.stopAt) {
+		if p.stopAtMatches(r) {
 			p.r = runeEOF
 			p.w = 1
 			p.tok = _EOF
@@ -444,6 +443,24 @@ func (p *Parser) extendedGlob() bool {
 		return p2 != ')'
 	}
 	return false
+}
+
+// stopAtMatches reports whether the input at r, the rune we just read,
+// begins with the [StopAt] word. The bytes of r itself may no longer be in the
+// buffer, so r is compared on its own; the bytes after it are peeked at,
+// refilling the buffer as needed.
+func (p *Parser) stopAtMatches(r rune) bool {
+	first, w := utf8.DecodeRune(p.stopAt)
+	if r != first || (first == utf8.RuneError && w <= 1) {
+		return false
+	}
+	rest := p.stopAt[w:]
+	for len(p.bs)-int(p.bsp) < len(rest) {
+		if p.fill() == 0 {
+			return false
+		}
+	}
+	return bytes.HasPrefix(p.bs[p.bsp:], rest)
 }
 
 func (p *Parser) peek() byte {
